@@ -47,4 +47,14 @@ inductive Outcome (α : Type) where
   | panic (msg : String)
 deriving Repr
 
+/-- `for i in 0..n { body }` on the state the body changes -/
+def forRange {σ : Type} (n : Nat) (init : σ) (body : Nat → σ → σ) : σ :=
+  (List.range n).foldl (fun s i => body i s) init
+
+/-- `for i in 0..n { body }` when the body can panic: the first panic ends the loop -/
+def forRangeO {σ : Type} (n : Nat) (init : σ) (body : Nat → σ → Outcome σ) : Outcome σ :=
+  (List.range n).foldl (fun acc i => match acc with
+    | .ok s => body i s
+    | .panic msg => .panic msg) (.ok init)
+
 end Evenio.Rs2Lean
